@@ -131,7 +131,9 @@ def check_length(cfg):
     else:
         untouched = hasattr(r, "pseudopressure") and np.array_equal(r.pseudopressure, prior)
         frame = hasattr(r, "time") and np.array_equal(r.time, prior_time) and hasattr(r, "recovery")
-    ok = raised == "ValueError" and untouched and (frame or not STRICT_LENGTH_FRAME)
+    # SinglePhaseReservoir validates the length itself (ValueError); IdealReservoir.simulate takes no schedule at all, so
+    # any schedule is rejected by the call (TypeError) - either way: an error, and nothing simulated with it
+    ok = (raised == "ValueError" or (cfg["class"] == "IdealReservoir" and raised == "TypeError")) and untouched and (frame or not STRICT_LENGTH_FRAME)
     return ok, {"raised": raised, "pseudopressure untouched": bool(untouched), "time and recovery cache untouched (informative unless STRICT_LENGTH_FRAME)": bool(frame)}
 
 
@@ -172,7 +174,7 @@ CHECKS = {"shift": check_shift, "constant_schedule": check_constant, "length": c
 REQUIRED = {
     "shift": "pseudopressure and recovery_factor() of simulate(time) and simulate(time + shift) within 1e-9",
     "constant_schedule": "simulate(t, full(len(t), p_f)) gives exactly (array_equal) the field and recovery of simulate(t)",
-    "length": "ValueError, and no new pseudopressure is left behind",
+    "length": "ValueError (IdealReservoir, which takes no schedule: TypeError), and no new pseudopressure is left behind",
     "before_simulate": "RuntimeError from recovery_factor() and recovery_factor_interpolator() on a fresh object",
     "interp_nodes_fill": "interpolator(time) == recovery within 1e-12, exactly 0 before the first time, exactly the final recovery after the last",
 }
@@ -242,6 +244,8 @@ def run(ctx):
                 for prev in (False, True):
                     j += 1
                     emit("length", {**base("SinglePhaseReservoir", j), "grid": g, "schedule_length": m, "form": form, "after_previous": prev})
+                    if form == "array":
+                        emit("length", {**base("IdealReservoir", j), "grid": g, "schedule_length": m, "form": form, "after_previous": prev})
     # before simulate
     for cls in classes:
         for j in range(len(press) * len(nxs)):
